@@ -1,19 +1,29 @@
 """C12 — runs are independent: definitions and configuration are shared state a run never modifies.
 
-Three streams, implementation = the real pypyr of $PYPYR_REPO run in this process:
+Streams, implementation = the real pypyr of $PYPYR_REPO run in this process.  Every stream starts a run
+either through `pipelinerunner.run` (a new `pypyr.pipeline.Pipeline` object inside) or - `via: object` -
+on ONE Pipeline object per entry point, made through the public constructors on the entry's first run
+and RUN AGAIN (`Pipeline.run(context)`) with a new `Context` for every later run, sequentially and
+concurrently on threads: a run of a re-used object must be the run of a fresh object.
 
 (a) ALIASING CORRESPONDENCE.  Generated pipelines of real steps (`in` arguments that are nested
     lists / dicts / sets, pypyr.steps.append / add / contextmerge / set / contextsetf / default /
-    contextcopy / py mutating in place / configvars, foreach items and retry inputs that are
-    containers, pype with args (parent context and own context + out), runs entered through
-    config.shortcuts with args / parser_args) are loaded through the real file loader and caches and
-    run through `pipelinerunner.run`.  After every step body (`Step.invoke_step` wrapped from outside,
-    i.e. while the step's `in` arguments are still in context) the harness records the deep value of
-    the context and the set of SHARED objects (cached definition, config.vars, config.shortcuts;
-    immutable atoms excepted) reachable from it by id().  The same operation sequence is executed by
-    the Lean heap model (`heap.runExec`: `Pypyr.RunHeap.exec`), whose `deepVal` and `foreignReach`
-    after the corresponding operation must agree.  Monitor on the implementation alone:
-    the reachable-shared set is empty at every observation.
+    contextcopy / py mutating in place / configvars; `foreach` over items that are containers and hold
+    containers, changed in place through `i` by py / contextmerge / append / add; a swallowed failure
+    whose `onError` value lands under runErrors and is changed in place afterwards; retry / while inputs
+    that are containers; pype with args (parent context and own context + out); runs entered through
+    config.shortcuts with args / parser_args).  Containers are EMPTY now and then at every nesting level
+    (an empty container is a mutable object like any other, and falsy: append / add / onError / foreach
+    treat it differently).  The pipelines are loaded through the real file loader and caches.  After
+    every step body (`Step.invoke_step` wrapped from outside, i.e. while the step's `in` arguments are
+    still in context) the harness records the deep value of the context and the set of SHARED objects
+    (cached definition, config.vars, config.shortcuts; immutable atoms excepted) reachable from it by
+    id().  The same history of calls is executed by the Lean heap model (`heap.runExec` with `calls`:
+    `RunHeap.callsSched` turns calls on Pipeline objects into operations, `RunHeap.exec` runs them;
+    decorator inputs are bound by the model's formatting operation `fmtSetAt` from the definition's own
+    objects), whose `deepVal` and `foreignReach` after the corresponding operation must agree.
+    Monitors on the implementation alone: the reachable-shared set is empty at every observation; a
+    re-run equals the first run; the context of a run that is over never changes afterwards.
 
 (b) HISTORY MONITOR (from the property text, no model involved).  Histories of 2-6 runs of 1-3
     pipelines (direct and through shortcuts, equal initial contexts) in one process with all caches
@@ -21,7 +31,8 @@ Three streams, implementation = the real pypyr of $PYPYR_REPO run in this proces
     (through the loader and straight from loader_cache / file_cache) and config.vars /
     config.shortcuts are deep-snapshotted and must equal what the loader produces for the file
     (`load_pipeline_from_file`, uncached) / what config was; run k of an entry must reproduce run 1:
-    probe trace (context at every `vobs` probe step), outcome, final context.
+    probe trace (context at every `vobs` probe step), outcome, final context; the live Context object
+    of every earlier run must still deep-equal the snapshot taken when that run ended.
 
 (b2) ORDER INDEPENDENCE OVER DIRECTORY LAYOUTS (part of the history stream, no model).  2-4 root
     pipelines in different directories pype children by relative names that contain sub-directories,
@@ -33,8 +44,13 @@ Three streams, implementation = the real pypyr of $PYPYR_REPO run in this proces
 
 (c) THREADS.  2-3 runs on real threads, each with its own context, hand-off at the probe steps
     (threading.Event scheduler of harness/impl_c13.py, no sleeps), several interleavings per pipeline
-    set, cold and warm caches: every run must reproduce its solo trace / outcome / final context and
-    the definitions must stay deep-equal.
+    set, cold and warm caches; with `via: object` the threads that run the same entry call run() on the
+    SAME Pipeline object: every run must reproduce its solo trace / outcome / final context (solo =
+    `pipelinerunner.run`), the definitions must stay deep-equal, the solo runs' contexts unchanged.
+
+Robustness: every case has a wall-clock limit (SIGALRM); a case that does not come back, a thread that
+never reaches its next probe, or an exception out of the code under test outside a run is reported as
+a broken correspondence with that case as input (the sandbox is rebuilt), never a hang or a crash.
 """
 from __future__ import annotations
 
@@ -60,8 +76,20 @@ ASSUMPTIONS = [
     'shared state = cached PipelineDefinition.pipeline graphs, config.vars, config.shortcuts; module-level state of '
     'logging and third-party libraries is not observed',
     'the caller\'s own dict_in / args_in objects belong to the caller: every run gets a fresh deep copy (equal initial context)',
-    'no yaml anchors shared between two `in` values; dict keys are strings; values without formatting expressions '
-    '(formatting is C08/C09)',
+    'inputs handed to a Pipeline object belong to the caller too; every run gets equal inputs: before a re-run of a '
+    're-used Pipeline object the harness assigns its context_args afresh (pypyr.parser.list hands that very list to the '
+    'context as argList, so a run that changes argList in place changes the object\'s own argument list); counted as '
+    'reuse:args-refreshed',
+    'threads that run the same entry share ONE Pipeline object unless the entry hands context_args to the object '
+    '(one mutable input for two runs) or uses pypyr.steps.call (the called group runs through the runner the object '
+    'holds when the step runs; with two calls of run() in flight that is the last one\'s - reported as a suspect, a '
+    'Pipeline object being documented as one running instance): those get an object per thread',
+    'what a Pipeline object keeps between two calls of run() is its steps_runner (PipeObj.runner in the model); its '
+    'pipeline_definition is fetched from the loader cache on every call',
+    'formatting of definition objects: brace-free values only (a formatter then changes no leaf); a leaf the formatter '
+    'returns as it is is an immutable atom and is modelled as a leaf cell of the copy (as for deepcopy)',
+    'no yaml anchors shared between two `in` values or two foreach items; dict keys are strings; values without '
+    'formatting expressions (formatting is C08/C09)',
     'special tag objects (!py, !sic, !jsonify) are treated as leaves of a definition',
 ]
 
@@ -135,6 +163,34 @@ def check_shared_unchanged(sb, names, baseline, cfg0, when):
     return out
 
 
+class Finished:
+    """"A run never alters other runs", judged on the implementation: the live Context object of every
+    run that is over, with the deep snapshot taken when that run ended; `check` compares them again."""
+
+    def __init__(self):
+        self.items = []
+
+    def add(self, label, ctx):
+        if ctx is not None:
+            self.items.append([label, ctx, I.norm(I.wire(dict(ctx)))])
+
+    def check(self, when):
+        out = []
+        for it in self.items:
+            now = I.norm(I.wire(dict(it[1])))
+            if canon(now) != canon(it[2]):
+                out.append((f'{when}: the context of {it[0]}, which was over, changed afterwards at {diff_path(it[2], now)}',
+                            {'monitor': 'finished-run-context-changed'}))
+                it[2] = now
+        return out
+
+
+def run_kwargs(case, ei):
+    """How run number … of entry `ei` is started: through pipelinerunner.run, or on that entry's
+    re-used Pipeline object."""
+    return {'via': case.get('via', 'runner'), 'key': ei}
+
+
 # ---------------------------------------------------------------------------------------------
 # case generation
 # ---------------------------------------------------------------------------------------------
@@ -178,8 +234,9 @@ def make_entries(rng, nentries, directed=None):
     by_pipe = {sc['pipeline_name']: name for name, sc in cfg['shortcuts'].items()}
     for n in names:
         if directed:
-            e = gen.entry(n, dict_in=directed.get('dict_in'), shortcut=by_pipe.get(n), args_in=directed.get('args_in'),
-                          parser=directed.get('parser'), script=directed['script'])
+            e = gen.entry(n, dict_in=copy.deepcopy(directed.get('dict_in')), shortcut=by_pipe.get(n),
+                          args_in=directed.get('args_in'), parser=directed.get('parser'),
+                          script=copy.deepcopy(directed['script']))
         else:
             shortcut = by_pipe.get(n)
             parser = 'pypyr.parser.list' if rng.random() < (0.7 if shortcut and 'parser_args' in cfg['shortcuts'][shortcut]
@@ -216,11 +273,39 @@ DIRECTED = [
     {'name': 'set-alias', 'script': ['set', 'set_ff', 'py_append', 'setf', 'py_alias', 'py_extend'],
      'dict_in': {'l': [1, [2]], 'd': {'x': [0]}}},
     {'name': 'sets', 'script': ['add', 'add', 'py_add', 'add_in', 'add'], 'dict_in': {'s0': {1, 2}}},
+    # decorator inputs are copied by formatting: foreach items holding EMPTY nested containers, filled in place
+    # through `i` (contextmerge extends lists in place; py; append / add replace a falsy container)
+    {'name': 'foreach-empty-nested-merge', 'dict_in': {'who': 'ops'}, 'script': [
+        ['foreach_dict', {'items': [{'name': 'web', 'done': [], 'meta': {}}, {'name': 'db', 'done': [], 'meta': {}}],
+                          'how': 'merge'}], 'py_append']},
+    {'name': 'foreach-empty-nested-py', 'dict_in': {}, 'script': [
+        ['foreach_dict', {'items': [{'name': 'web', 'done': [], 'meta': {}}], 'how': 'py_list'}],
+        ['foreach_dict', {'items': [{'name': 'web', 'done': [1], 'meta': {}}, {'name': 0, 'done': [], 'meta': {'a': {}}}],
+                          'how': 'py_dict'}]]},
+    {'name': 'foreach-empty-items', 'dict_in': {}, 'script': [
+        ['foreach_list', {'items': [[], [[]], [1]], 'how': 'py'}], ['foreach_list', {'items': [[], [2]], 'how': 'merge'}],
+        ['foreach_list', {'items': [[], [3]], 'how': 'append'}], ['foreach_set', {'items': [set(), {1}], 'how': 'py'}],
+        ['foreach_set', {'items': [set(), {2}], 'how': 'add'}]]},
+    {'name': 'foreach-random', 'script': ['foreach_dict', 'foreach_list', 'foreach', 'merge', 'foreach_set'],
+     'dict_in': {'acc': []}},
+    # a swallowed failure keeps the formatted onError value of the definition under runErrors
+    {'name': 'onerror-empty', 'dict_in': {}, 'script': [['onerror', {'onError': {'why': [], 'ctx': {}}}],
+                                                         ['onerror', {'onError': [[], {}]}], 'onerror', 'py_append']},
+    # EMPTY containers under `in`, in the initial context, as set / pype / retry inputs
+    {'name': 'empties-everywhere', 'dict_in': {'l': [], 'd': {}, 'n': {'x': [], 'y': {}}},
+     'script': ['append_in', 'append_ctx', 'py_append', 'py_dictset', 'merge', 'default', 'set', 'set_ff', 'py_append',
+                'retry', 'while', 'pype_parent', 'pype_child']},
 ]
+DIRECTED.append(
+    # pypyr.steps.call: the called group runs through the runner the Pipeline object holds
+    {'name': 'call-groups', 'dict_in': {'acc': [], 'd': {'x': []}},
+     'script': ['call', 'py_append', 'call', 'foreach_dict', 'call', 'append_in']})
+OBJECT_DIRECTED = (0, 2, 3, 5, 6, 8, 12, 15, 17, 18)     # the directed shapes that are also run on a re-used Pipeline object
 
 
-def case_from(gen, entries, kind, order, probes):
+def case_from(gen, entries, kind, order, probes, via='runner'):
     return {'kind': kind,
+            'via': via,
             'pipes': {n: I.render_pipe(p, probes=probes) for n, p in gen.pipes.items()},
             'config': gen.config,
             'entries': entries,
@@ -228,24 +313,37 @@ def case_from(gen, entries, kind, order, probes):
             'order': order}
 
 
+def pick_via(rng):
+    return 'object' if rng.random() < 0.4 else 'runner'
+
+
 def alias_cases(env):
     rng = env.rng
-    for d in DIRECTED:
+    for j, d in enumerate(DIRECTED):
         gen, entries = make_entries(rng, 1, directed=d)
         yield case_from(gen, entries, 'alias', [0, 0], probes=False), 'directed:' + d['name']
-    for _ in range(env.n(220, 9000)):
-        gen, entries = make_entries(rng, 1)
-        yield case_from(gen, entries, 'alias', [0, 0] if rng.random() < 0.5 else [0], probes=False), 'random'
+        if j in OBJECT_DIRECTED:
+            yield case_from(gen, entries, 'alias', [0, 0, 0], probes=False, via='object'), 'directed:' + d['name']
+    for _ in range(env.n(260, 9000)):
+        via = pick_via(rng)
+        ne = 1 if via == 'runner' or rng.random() < 0.6 else 2
+        gen, entries = make_entries(rng, ne)
+        if via == 'object':         # one Pipeline object per entry, run again and again with new contexts
+            order = [rng.randrange(ne) for _ in range(rng.randint(2, 3))]
+        else:
+            order = [0, 0] if rng.random() < 0.5 else [0]
+        yield case_from(gen, entries, 'alias', order, probes=False, via=via), 'random'
 
 
 def history_cases(env):
     rng = env.rng
-    for d in DIRECTED:
+    for j, d in enumerate(DIRECTED):
         gen, entries = make_entries(rng, 1, directed=d)
         for e in entries:
             e.pop('prog', None)
-        yield case_from(gen, entries, 'history', [0, 0, 0], probes=True), 'directed:' + d['name']
-    for _ in range(env.n(70, 2500)):
+        yield case_from(gen, entries, 'history', [0, 0, 0], probes=True,
+                        via='object' if j in OBJECT_DIRECTED else 'runner'), 'directed:' + d['name']
+    for _ in range(env.n(90, 2500)):
         ne = rng.randint(1, 3)
         gen, entries = make_entries(rng, ne)
         for e in entries:
@@ -253,21 +351,22 @@ def history_cases(env):
         order = [rng.randrange(ne) for _ in range(rng.randint(2, 6))]
         if ne > 1 and len(set(order)) == len(order):     # make sure something runs twice
             order.append(order[0])
-        yield case_from(gen, entries, 'history', order, probes=True), 'random'
+        yield case_from(gen, entries, 'history', order, probes=True, via=pick_via(rng)), 'random'
 
 
 def thread_cases(env):
     rng = env.rng
     sets = []
-    for d in (DIRECTED[0], DIRECTED[1], DIRECTED[2], DIRECTED[3], DIRECTED[5], DIRECTED[8]):
+    for j in (0, 1, 2, 3, 5, 8, 12, 14, 16, 18):
+        d = DIRECTED[j]
         gen, entries = make_entries(rng, 1, directed=d)
-        sets.append((gen, entries, [0, 0], 'directed:' + d['name']))
-    for _ in range(env.n(6, 150)):
+        sets.append((gen, entries, [0, 0], 'directed:' + d['name'], 'object' if j in (0, 2, 5, 12, 16, 18) else 'runner'))
+    for _ in range(env.n(8, 150)):
         ne = rng.randint(1, 3)
         gen, entries = make_entries(rng, ne)
         nt = rng.randint(2, 3)
-        sets.append((gen, entries, [rng.randrange(ne) for _ in range(nt)], 'random'))
-    for gen, entries, threads, tag in sets:
+        sets.append((gen, entries, [rng.randrange(ne) for _ in range(nt)], 'random', pick_via(rng)))
+    for gen, entries, threads, tag, via in sets:
         for e in entries:
             e.pop('prog', None)
         nt = len(threads)
@@ -276,10 +375,10 @@ def thread_cases(env):
                   [t for t in range(nt) for _ in range(40)],                      # one after the other
                   [t for t in reversed(range(nt)) for _ in range(40)],            # …in reverse
                   [t for _ in range(40) for t in reversed(range(nt))]]
-        for _ in range(env.n(3, 8)):
+        for _ in range(env.n(2, 8)):
             scheds.append([rng.randrange(nt) for _ in range(60)])
         for k, s in enumerate(scheds):
-            c = case_from(gen, entries, 'threads', threads, probes=True)
+            c = case_from(gen, entries, 'threads', threads, probes=True, via=via)
             c['schedule'] = s
             c['cold'] = bool(k % 2)
             yield c, tag
@@ -296,26 +395,36 @@ def check_alias(env, res, sb, case, tag='replay'):
     bodies = sb.load(names)
     cfg0 = config_wire(sb)
     shared = I.SharedIndex(names, bodies, sb.config)
-    sched, points, impl_runs = [], [], []
+    via = case.get('via', 'runner')
+    calls, flat, points, impl_runs = [], [], [], []
     hooked = True
     found = []
+    fin = Finished()
+    reused0, refreshed0 = sb.reused, sb.refreshed
     for k, ei in enumerate(case['order']):
         entry = case['entries'][ei]
-        s, pts = I.instantiate(entry['prog'], k + 1, shared)
-        base = len(sched)
-        sched += s
+        # the model's history of calls: a re-used object is the same object number, pipelinerunner.run a new one
+        call, nops, pts = I.instantiate(entry['prog'], k + 1, shared, obj=ei + 1 if via == 'object' else 1000 + k)
+        base = len(flat)
+        calls.append(call)
+        flat += [[k + 1, o] for o in call['pre']] + [[k + 1 if t is None else t, o] for t, o in call['steps']]
         points.append([(base + i, r) for i, r in pts])
         with I.StepObserver(shared) as so:
             hooked = so.active
             outcome, ctx = sb.run(entry['run'], dict_in=I.unwire(entry['dict_in']) if entry['dict_in'] is not None else None,
-                                  args_in=entry['args_in'])
+                                  args_in=entry['args_in'], **run_kwargs(case, ei))
             if ctx is not None:
                 so.record(ctx, '<final>')
         impl_runs.append({'outcome': outcome, 'events': so.events})
         found += check_shared_unchanged(sb, names, baseline, cfg0, f'after run {k + 1}')
+        found += fin.check(f'after run {k + 1}')
+        fin.add(f'run {k + 1}', sb.last_live)
     res.case(case)
     res.count('alias:' + tag)
+    res.count('alias:via-' + via)
     res.count('alias:runs', len(case['order']))
+    res.count('reuse:runs-on-a-reused-object', sb.reused - reused0)
+    res.count('reuse:args-refreshed', sb.refreshed - refreshed0)
     for kd in case.get('kinds', []):
         res.count('step:' + kd)
     # ---- monitors on the implementation alone
@@ -332,7 +441,9 @@ def check_alias(env, res, sb, case, tag='replay'):
             if a['outcome'] != b['outcome'] or canon([I.norm(e['ctx']) for e in a['events']]) != canon(
                     [I.norm(e['ctx']) for e in b['events']]):
                 found.append((f'run {k + 1} of the same pipeline with an equal initial context differs from run '
-                              f'{first[ei] + 1} (step trace / outcome / final context)', {'monitor': 'rerun-differs'}))
+                              f'{first[ei] + 1} (step trace / outcome / final context)'
+                              + (' - both on the same Pipeline object, each with a new Context' if via == 'object' else ''),
+                              {'monitor': 'rerun-differs'}))
         else:
             first[ei] = k
     seen = set()
@@ -344,15 +455,17 @@ def check_alias(env, res, sb, case, tag='replay'):
                       impl={'runs': [{'outcome': r['outcome'], 'final': r['events'][-1]['ctx'] if r['events'] else None,
                                       'foreign': [e['labels'] for e in r['events'] if e['labels']][:2]} for r in impl_runs]})
     # ---- model
-    model = env.driver.ask('heap.runExec', defs=shared.defs, cfg=shared.cfg, sched=sched)
+    model = env.driver.ask('heap.runExec', defs=shared.defs, cfg=shared.cfg, calls=calls)
     problems = []
+    if len(model['steps']) != len(flat):
+        raise common.Infra('the model turned the calls into a different number of operations')
     if not model['fixed']:
         problems.append('the generated schedule uses a pre-repair operation')
     if not model['sharedSame']:
         problems.append(f"model: shared arenas changed at operation {model['sharedSameAt']}")
-    na = [i for i, s in enumerate(model['steps']) if not s['applied']]
+    na = [i for i, st in enumerate(model['steps']) if not st['applied']]
     if na:
-        problems.append(f'model: operation {na[0]} {sched[na[0]]} does not apply (the code would raise / do nothing)')
+        problems.append(f'model: operation {na[0]} {flat[na[0]]} does not apply (the code would raise / do nothing)')
     for k, run in enumerate(impl_runs):
         pts = points[k]
         if run['outcome'] != 'ok':
@@ -366,6 +479,11 @@ def check_alias(env, res, sb, case, tag='replay'):
             continue
         for j, ((i, r), ev) in enumerate(zip(pts, evs)):
             ms = model['steps'][i]
+            if ms['r'] != r:
+                # the operation before this observation acted on another run's context (a nested run that
+                # just ended): the observed context is run r's as it is now = after its own last operation
+                own = [q for q in range(i, -1, -1) if model['steps'][q]['r'] == r]
+                ms = model['steps'][own[0]] if own else ms
             if not I.same(ms['ctx'], ev['ctx']):
                 problems.append(f"run {k + 1} observation {j} ({ev['step']}): context values differ at "
                                 f"{diff_path(ms['ctx'], ev['ctx'])}")
@@ -388,12 +506,12 @@ def check_alias(env, res, sb, case, tag='replay'):
 # (b) history monitor
 # ---------------------------------------------------------------------------------------------
 
-def solo_run(sb, entry):
+def solo_run(sb, entry, **how):
     tr = I.SoloTrace()
     sb.vobs.HOOK = tr.hook
     try:
         outcome, ctx = sb.run(entry['run'], dict_in=I.unwire(entry['dict_in']) if entry['dict_in'] is not None else None,
-                              args_in=entry['args_in'])
+                              args_in=entry['args_in'], **how)
     finally:
         sb.vobs.HOOK = None
     return {'trace': [I.norm(x) for x in tr.trace], 'outcome': outcome,
@@ -408,22 +526,31 @@ def check_history(env, res, sb, case, tag='replay'):
     cfg0 = config_wire(sb)
     found = check_shared_unchanged(sb, names, baseline, cfg0, 'after loading, before the first run')
     first, obs = {}, []
+    via = case.get('via', 'runner')
+    fin = Finished()
+    reused0, refreshed0 = sb.reused, sb.refreshed
     for k, ei in enumerate(case['order']):
-        o = solo_run(sb, case['entries'][ei])
+        o = solo_run(sb, case['entries'][ei], **run_kwargs(case, ei))
         obs.append(o)
         found += check_shared_unchanged(sb, names, baseline, cfg0, f'after run {k + 1} (entry {ei})')
+        found += fin.check(f'after run {k + 1} (entry {ei})')
+        fin.add(f'run {k + 1} (entry {ei})', sb.last_live)
         if ei in first:
             ref = obs[first[ei]]
             for what in ('trace', 'outcome', 'final'):
                 if canon(ref[what]) != canon(o[what]):
-                    found.append((f'run {k + 1} (entry {ei}, equal initial context) differs from run {first[ei] + 1} in its '
-                                  f'{what}' + (f' at {diff_path(ref[what], o[what])}' if what != 'outcome' else
+                    found.append((f'run {k + 1} (entry {ei}, equal initial context'
+                                  + (', the same Pipeline object run again with a new Context' if via == 'object' else '')
+                                  + f') differs from run {first[ei] + 1} in its {what}' + (f' at {diff_path(ref[what], o[what])}' if what != 'outcome' else
                                                f': {ref[what]} vs {o[what]}'), {'monitor': 'rerun-differs', 'what': what}))
                     break
         else:
             first[ei] = k
     res.case(case)
     res.count('history:' + tag)
+    res.count('history:via-' + via)
+    res.count('reuse:runs-on-a-reused-object', sb.reused - reused0)
+    res.count('reuse:args-refreshed', sb.refreshed - refreshed0)
     res.count('history:runs', len(case['order']))
     res.count('history:probe-events', sum(len(o['trace']) for o in obs))
     for o in obs:
@@ -447,31 +574,75 @@ def check_threads(env, res, sb, case, tag='replay'):
     baseline = {n: I.wire(sb.fresh(n)) for n in names}
     sb.load(names)
     cfg0 = config_wire(sb)
-    solo = {ei: solo_run(sb, case['entries'][ei]) for ei in sorted(set(case['order']))}
+    via = case.get('via', 'runner')
+    fin = Finished()
+    # the reference: every entry on its own, through pipelinerunner.run (a Pipeline object of its own)
+    solo = {}
+    for ei in sorted(set(case['order'])):
+        solo[ei] = solo_run(sb, case['entries'][ei])
+        fin.add(f'the solo run of entry {ei}', sb.last_live)
     found = check_shared_unchanged(sb, names, baseline, cfg0, 'after the solo runs')
     if case.get('cold'):
         sb.admin.clear_all()
+    lives = {}
+    shared_args = []
 
-    def prog(ei):
+    def prog(t, ei):
         entry = case['entries'][ei]
+        dict_in = I.unwire(entry['dict_in']) if entry['dict_in'] is not None else None
+        if via == 'object':
+            # the threads that run entry ei share ONE Pipeline object (made here, before they start) and call
+            # run() on it concurrently, each with a Context of its own
+            from pypyr.context import Context
+            pipeline, args = sb.pipeline_object(ei, entry['run'], dict_in, entry['args_in'])
+            if pipeline.context_args is not None or 'call' in case.get('kinds', ()):
+                # (1) the object's argument list is an input the caller owns, and pypyr.parser.list hands that
+                # very list to the context: concurrent runs on this object would be given ONE mutable input;
+                # every run gets inputs of its own.  (2) `pypyr.steps.call` runs the called group through
+                # `context.current_pipeline.steps_runner`, read when the step runs: with two calls of run()
+                # in flight on ONE object that is the runner of whichever call came last (reported as a
+                # suspect; a Pipeline object is documented as one running instance).  Such an entry is run
+                # on an object per thread, and again and again on that object.
+                shared_args.append(t)
+                pipeline, args = sb.pipeline_object((ei, t), entry['run'], dict_in, entry['args_in'])
+            ctx = lives[t] = Context(args) if args else Context()
 
-        def op(t, i):
-            return sb.run(entry['run'], dict_in=I.unwire(entry['dict_in']) if entry['dict_in'] is not None else None,
-                          args_in=entry['args_in'])
+            def op(t, i):
+                try:
+                    pipeline.run(ctx)
+                    return 'ok', ctx
+                except Exception as e:   # noqa: BLE001 - the run's own outcome
+                    return {'err': common.exc_name(e), 'msg': str(e).replace(str(sb.dir), '<dir>')}, None
+        else:
+            def op(t, i):
+                r = sb.run(entry['run'], dict_in=dict_in, args_in=entry['args_in'])
+                lives[t] = r[1]
+                return r
         return [op]
-    sched = I.ProbeSched([prog(ei) for ei in case['order']])
+    reused0, refreshed0 = sb.reused, sb.refreshed
+    sched = I.ProbeSched([prog(t, ei) for t, ei in enumerate(case['order'])])
     sb.vobs.HOOK = sched.hook
     try:
-        sched.start()
-        state = sched.run(case['schedule'], finish=True)
-    finally:
-        sb.vobs.HOOK = None
+        try:
+            sched.start()
+            state = sched.run(case['schedule'], finish=True)
+        finally:
+            sb.vobs.HOOK = None
+    except common.Infra as e:
+        # a thread that does not come back to a probe step (or ends) within the watchdog time: the runs on
+        # threads do not behave like their solo runs, which did
+        res.case(case)
+        res.mismatch(case, {'solo': {str(k): v['outcome'] for k, v in solo.items()}}, {'threads': str(e)[:300]},
+                     note=f'runs on threads did not finish although each run finishes on its own: {str(e)[:200]}')
+        return
     if state != 'done':
-        raise common.Infra(f'C12 thread scheduler ended in state {state}')
+        res.case(case)
+        res.mismatch(case, None, {'scheduler': state}, note=f'the runs on threads ended in scheduler state {state}')
+        return
     for t, ei in enumerate(case['order']):
-        kind, val = sched.results[t][0]
+        kind, val = sched.results[t][0] if sched.results[t] else ('exc', 'no result')
         if kind == 'exc':
-            raise common.Infra(f'C12 worker raised {val!r}')
+            val = ({'err': type(val).__name__, 'msg': str(val)[:200]}, None)
         outcome, ctx = val
         o = {'trace': [I.norm(x) for x in sched.traces[t]], 'outcome': outcome,
              'final': I.norm(I.wire(dict(ctx))) if ctx is not None else None}
@@ -482,8 +653,13 @@ def check_threads(env, res, sb, case, tag='replay'):
                               {'monitor': 'thread-differs', 'what': what}))
                 break
     found += check_shared_unchanged(sb, names, baseline, cfg0, 'after the threaded runs')
+    found += fin.check('after the threaded runs')
     res.case(case)
     res.count('threads:' + tag)
+    res.count('threads:via-' + via)
+    res.count('reuse:threads-with-an-object-of-their-own (context_args / call)', len(shared_args))
+    res.count('reuse:runs-on-a-reused-object', sb.reused - reused0)
+    res.count('reuse:args-refreshed', sb.refreshed - refreshed0)
     res.count('threads:turns', sched.turns)
     res.count('threads:n=' + str(len(case['order'])))
     res.count('threads:cold' if case.get('cold') else 'threads:warm')
@@ -724,19 +900,104 @@ def check_orders(env, res, sb, case, tag='replay'):
 CHECKERS = {'alias': check_alias, 'history': check_history, 'orders': check_orders, 'threads': check_threads}
 
 
+CASE_TIMEOUT_S = float(os.environ.get('C12_CASE_TIMEOUT_S', '30'))     # a case takes well under a second
+MAX_BROKEN_CASES = 12
+MAX_TIMEOUTS = 2
+
+
+class CaseTimeout(BaseException):
+    """The time limit of one case ran out (BaseException: no `except Exception` of the code under test
+    or of the harness swallows it)."""
+
+
+def _alarm(signum, frame):
+    raise CaseTimeout()
+
+
+def _from_repo(exc):
+    import traceback
+    frames = traceback.extract_tb(exc.__traceback__)
+    hits = [f for f in frames if str(f.filename).startswith(str(common.REPO))]
+    return hits[-1] if hits else None
+
+
 def _run_cases(env, res, cases):
+    """Every case with a wall-clock limit. A case that does not come back, or out of which the code under
+    test raises something no stream classifies (a loader that fails, a constructor that rejects its
+    arguments, unbounded recursion), is a finding of the correspondence with that case as its input -
+    never a hang or a crash of the check."""
+    import signal
+    import threading
+    can_alarm = hasattr(signal, 'SIGALRM') and threading.current_thread() is threading.main_thread()
     sb = I.Sandbox()
+    broken = timeouts = 0
+    old = signal.signal(signal.SIGALRM, _alarm) if can_alarm else None
+    todo = [(case, tag, CASE_TIMEOUT_S) for case, tag in cases]
+    todo.reverse()
     try:
-        for case, tag in cases:
-            CHECKERS[case['kind']](env, res, sb, case, tag)
+        while todo:
+            case, tag, limit = todo.pop()
+            if env.out_of_time() or broken >= MAX_BROKEN_CASES or timeouts >= MAX_TIMEOUTS:
+                break
+            try:
+                if can_alarm:
+                    signal.setitimer(signal.ITIMER_REAL, limit)
+                try:
+                    CHECKERS[case['kind']](env, res, sb, case, tag)
+                finally:
+                    if can_alarm:
+                        signal.setitimer(signal.ITIMER_REAL, 0)
+            except CaseTimeout:
+                sb = _new_sandbox(sb, env)
+                if limit == CASE_TIMEOUT_S:
+                    # a loaded machine can stall a case: it gets one more try with twice the time
+                    res.count('broken:timeout-retried')
+                    todo.append((case, tag, 2 * CASE_TIMEOUT_S))
+                    continue
+                broken += 1
+                timeouts += 1
+                res.case(case)
+                res.count('broken:timeout')
+                res.mismatch(case, {'returns': True}, {'returns': False},
+                             note=f"a {case['kind']} case did not finish within {CASE_TIMEOUT_S:.0f}s and, tried again, within "
+                                  f"{limit:.0f}s (the model's runs all end)")
+            except (common.Infra, common.Reject, KeyboardInterrupt):
+                raise
+            except Exception as e:      # noqa: BLE001
+                at = _from_repo(e)
+                if at is None:
+                    raise
+                broken += 1
+                res.case(case)
+                res.count('broken:raised')
+                where = f'{os.path.relpath(at.filename, common.REPO)}:{at.lineno} in {at.name}'
+                res.mismatch(case, None, {'raised': type(e).__name__, 'msg': str(e)[:300], 'at': where},
+                             note=f"outside any run of a {case['kind']} case the implementation raised {type(e).__name__} "
+                                  f'at {where}: {str(e)[:160]}')
+                sb = _new_sandbox(sb, env)
     finally:
+        if can_alarm:
+            signal.setitimer(signal.ITIMER_REAL, 0)
+            signal.signal(signal.SIGALRM, old)
         sb.close()
 
 
+def _new_sandbox(sb, env=None):
+    try:
+        sb.close()
+    except Exception:      # noqa: BLE001 - the state the broken case left behind
+        pass
+    if env is not None and env._driver is not None:
+        env._driver.close()        # an answer of the model may be left unread: start a new driver
+        env._driver = None
+    return I.Sandbox()
+
+
 def _worker(args):
-    cases, tier, seed = args
+    cases, tier, seed, deadline = args
     common.use_repo()
     env = common.Env('C12', tier, seed)
+    env.deadline = deadline        # an escalated failing-input search is time-boxed
     res = common.Result()
     try:
         _run_cases(env, res, cases)
@@ -747,13 +1008,21 @@ def _worker(args):
 
 
 def run(env, res):
-    res.rule = ('(a) generated pipelines of real steps (12 directed shapes, then random: 2-6 steps from 22 step kinds, '
-                'random config.vars / shortcut with args and/or parser_args / list parser / dict_in), run once or twice, '
-                'every step observation compared with the Lean heap model: context deep value + shared objects reachable '
-                'by id(); (b) histories of 2-6 runs over 1-3 such pipelines, deep snapshots of every cached definition and '
-                'of config after every run, run k vs run 1; (b2) 2-4 root pipelines in different directories pyping children by relative names with sub-directories, plus signs and dot-dot, child files next to the parent / in cwd / in cwd/pipelines / missing, cwd set by the harness: every root solo in a fresh cache, then permutations and a history with repeats with caches on, each run vs its solo run, cached definition per (parent, name) vs a fresh load of the file the search order prescribes; (c) 2-3 runs on real threads under 7-12 schedules per pipeline '
-                'set, cold and warm caches, each vs its solo run. non-trivial = distinct (pipelines, config, entries, '
-                'order, schedule)')
+    res.rule = ('every stream starts runs through pipelinerunner.run or (via=object, ~40%) on one Pipeline object per entry '
+                'that is run again with a new Context; (a) generated pipelines of real steps (19 directed shapes, then '
+                'random: 2-6 steps from 28 step kinds, containers EMPTY with p=0.22 at every level, foreach items / onError / '
+                'retry inputs that are nested containers changed in place through i / runErrors, random config.vars / '
+                'shortcut with args and/or parser_args / list parser / dict_in), 1-3 runs, every step observation compared '
+                'with the Lean heap model (calls on Pipeline objects -> operations; formatting op on definition objects): '
+                'context deep value + shared objects reachable by id(); (b) histories of 2-6 runs over 1-3 such pipelines, '
+                'deep snapshots of every cached definition and of config after every run, run k vs run 1, contexts of '
+                'finished runs unchanged; (b2) 2-4 root pipelines in different directories pyping children by relative '
+                'names with sub-directories, plus signs and dot-dot, child files next to the parent / in cwd / in '
+                'cwd/pipelines / missing, cwd set by the harness: every root solo in a fresh cache, then permutations and '
+                'a history with repeats with caches on, each run vs its solo run, cached definition per (parent, name) vs '
+                'a fresh load of the file the search order prescribes; (c) 2-3 runs on real threads (same entry: the same '
+                'Pipeline object when via=object) under 6-12 schedules per pipeline set, cold and warm caches, each vs its '
+                'solo run. non-trivial = distinct (pipelines, config, entries, order, via, schedule)')
     cases = list(alias_cases(env)) + list(history_cases(env)) + list(order_cases(env)) + list(thread_cases(env))
     only = os.environ.get('C12_STREAMS')          # debugging / self-test: run a subset of the streams
     if only:
@@ -764,7 +1033,7 @@ def run(env, res):
         return
     import multiprocessing as mp
     nproc = min(12, os.cpu_count() or 2)
-    chunks = [(cases[i::nproc * 3], env.tier, env.seed) for i in range(nproc * 3)]
+    chunks = [(cases[i::nproc * 3], env.tier, env.seed, env.deadline) for i in range(nproc * 3)]
     ctx = mp.get_context('fork')
     with ctx.Pool(nproc) as pool:
         for findings, dist, n, nontrivial, samples in pool.imap_unordered(_worker, chunks):
